@@ -132,6 +132,11 @@ def run(chk):
     corner = [["", ""], [""], ["A"], ["", "A", "AA", "AAA"], ["AB", "B"], ["AB", "BA"], ["AAAA", "AAA", "AA"],
               ["ABC", "CBA", "ABC"], ["A", "B", "C", "D"], ["AB", ""], ["XA", "AY"], ["ü∆", "ü", "∆∆"],
               ["CAAA", "CDDD", "CADA", "CAAA"]]
+    # sequences of more than a thousand residues (deeper than Python's default recursion limit): a clonal family of 1200-mers
+    long_root = "".join(rng.choice("ACDEFGHIKLMNPQRSTVWY") for _ in range(1200))
+    long_fam = [long_root, long_root[:600] + ("A" if long_root[600] != "A" else "C") + long_root[601:], long_root[:-1], long_root + "W",
+                long_root[:300] + long_root[301:], "".join(rng.choice("ACDE") for _ in range(1100))]
+    add("symdel|1200-residue-family", long_fam, 1, model=False)
     # the documented default radius (max_edits omitted) is 1
     for xs in corner[:8] + [["CASSLGF", "CASSLGY", "CASSLG", "CQSSLGF"]]:
         add("symdel|default-max_edits", xs, 1, model=False, fn=lambda xs, k: nn.symdel(xs))
